@@ -171,7 +171,7 @@ func (g *c18G) genFile(f *c18File, level int) {
 		nDefs = r.IntN(3)
 	}
 	for i := 0; i < nDefs; i++ {
-		d := c18Def{N: g.pick(c18FuncNames), A: []int{0, 0, 0, 0, 0, 0, 1, 1, 1, 2}[r.IntN(10)]}
+		d := c18Def{N: g.pick(c18FuncNames), A: []int{0, 0, 0, 0, 0, 0, 1, 1, 1, 2, 2, 3, 9, 10, 11, 12}[r.IntN(16)]}
 		size := 1
 		nc := []int{0, 0, 1, 1, 2, 3}[r.IntN(6)]
 		for j := 0; j < nc; j++ {
@@ -375,7 +375,7 @@ func c18Gen(seed uint64) c18Case {
 			} else if r.IntN(4) == 0 {
 				k = c18Call{N: g.pick(c18DataAliases), V: 1 + r.IntN(2)}
 			} else {
-				k = c18Call{Q: aliases[r.IntN(len(aliases))], N: g.pick(c18FuncNames), A: r.IntN(3)}
+				k = c18Call{Q: aliases[r.IntN(len(aliases))], N: g.pick(c18FuncNames), A: []int{0, 1, 2, 0, 1, 2, 3, 10}[r.IntN(8)]}
 			}
 			v.Call = &k
 		}
